@@ -124,6 +124,7 @@ func buildScenario(spec *CaseSpec, t *Tape) *Scenario {
 	case "C04", "C05", "C06", "C07", "C17":
 		o, em := faultOpts(spec.Prop, thorough)
 		if spec.Enum != nil {
+			o.Rare = false // swept histories stay small; the rare modes belong to the random search
 			return genFaultScenarioEnum(t, &o, spec.Prop, spec.Enum)
 		}
 		sc := genFaultScenario(t, &o, em)
@@ -137,10 +138,10 @@ func buildScenario(spec *CaseSpec, t *Tape) *Scenario {
 
 // genFaultScenarioEnum: one fault attempt of a pinned kind/place/pacing, then a clean one.
 func genFaultScenarioEnum(t *Tape, o *GenOpts, prop string, e *EnumSpec) *Scenario {
-	h := GenHistory(t.S("hist"), o)
+	h := genHistoryFor(t, t.S("hist"), o)
 	cs := t.S("cfg")
 	fs := t.S("fault")
-	sc := &Scenario{Hist: h, Start: pickStart(cs, h, true), ServerID: genServerID(cs)}
+	sc := &Scenario{Hist: h, Start: pickStart(cs, h, true), ServerID: replicaIDOf(t)}
 	var p AttemptPlan
 	genPolicy(t.S("policy"), &p)
 	p.Pacing = e.Pacing
@@ -160,8 +161,9 @@ func genFaultScenarioEnum(t *Tape, o *GenOpts, prop string, e *EnumSpec) *Scenar
 
 // tuneC07 widens server ids and (when possible) the start offset domain.
 func tuneC07(t *Tape, sc *Scenario) {
-	cs := t.S("c07")
-	sc.ServerID = []uint32{0, 1, 1<<31 - 1, 1 << 31, 1<<32 - 1, uint32(cs.U64())}[cs.N(6)]
+	// server ids (boundary values included) are drawn by replicaIDOf before the
+	// history is generated, so that events may carry the replica's own id
+	_ = t
 }
 
 func hashStrings(parts ...string) uint64 {
@@ -225,6 +227,17 @@ func collectStats(res *CaseResult, r *Run) {
 		if a.Master != nil && len(a.Master.Dumps) > 0 && a.Master.Dumps[0].Offset > 1<<31 {
 			st.probe("offset-above-2^31")
 		}
+		if a.Master != nil && len(a.Master.Dumps) > 0 {
+			switch a.Master.Dumps[0].Offset {
+			case 1<<32 - 1:
+				st.probe("dump-request-at-offset-2^32-1")
+			case 1 << 31, 1<<31 - 1:
+				st.probe("dump-request-at-offset-2^31(-1)")
+			}
+		}
+		if a.Master != nil && len(a.MapperCalls) > 1024 {
+			st.probe("more-than-1024-table-ids-on-one-connection")
+		}
 	}
 	if r.master != nil {
 		for _, p := range r.master.packets {
@@ -280,6 +293,11 @@ func RunCase(t *testing.T, spec CaseSpec) *CaseResult {
 		res.Nontrivial = delivered > 0
 	case "C02":
 		add(checkC02(r))
+		for _, st := range r.Stability {
+			// a delivered transaction that later gains or loses changes: a change was
+			// moved across a commit point / delivered in two transactions
+			res.Violations = append(res.Violations, Violation{"C02", "duplicate-change", st, 0})
+		}
 		res.Nontrivial = delivered > 0
 	case "C03":
 		if len(sc.Attempts) > 1 {
@@ -601,6 +619,14 @@ func checkC15(r *Run) []Violation {
 				}
 			}
 		}
+		cleanPlan := att.Plan.Stop == stopNone || (att.Plan.Stop == stopEOF && att.Plan.Stream.AtPacket >= 1<<30)
+		if cleanPlan && poison < 0 && !att.Hang && !att.StepCapped {
+			if att.StreamErr != nil {
+				vs = append(vs, Violation{"C15", "attribution", "a well-formed stream (every rows event preceded by its table map) ended with " + errText(att.StreamErr), i})
+			} else if len(att.Calls) < len(exp) {
+				vs = append(vs, Violation{"C15", "attribution", fmt.Sprintf("%d of %d transactions delivered from a well-formed stream", len(att.Calls), len(exp)), i})
+			}
+		}
 		miscount := hasCause(att, "mapper-miscount")
 		for k, c := range att.Calls {
 			if c.Snap == nil || k >= len(exp) {
@@ -652,12 +678,10 @@ func checkC15(r *Run) []Violation {
 				if fi == h.fileIndex(start.File) && int64(e.Offset) < start.Off {
 					continue
 				}
-				if e.Type == evTableMap {
-					for _, t := range h.Tables {
-						if e.Unit >= 0 && tableOfEvent(h, e) == t && !seen[t.ID] {
-							seen[t.ID] = true
-							wantCalls = append(wantCalls, t.DB+"."+t.Name)
-						}
+				if e.Type == evTableMap && e.Unit >= 0 {
+					if t := tableOfEvent(h, e); t != nil && !seen[t.ID] {
+						seen[t.ID] = true
+						wantCalls = append(wantCalls, t.DB+"."+t.Name)
 					}
 				}
 			}
@@ -686,10 +710,11 @@ func tableOfEvent(h *History, e *Event) *TableDef {
 	for i := 0; i < n && i < len(e.Body); i++ {
 		id |= uint64(e.Body[i]) << (8 * uint(i))
 	}
-	for _, t := range h.Tables {
-		if t.ID == id {
-			return t
+	if h.byID == nil {
+		h.byID = map[uint64]*TableDef{}
+		for _, t := range h.Tables {
+			h.byID[t.ID] = t
 		}
 	}
-	return nil
+	return h.byID[id]
 }
